@@ -17,7 +17,7 @@ import z3
 from . import allc                     # noqa: F401
 from .base import R as R0, BV, B64, B8, Contract, Frame, Ctx, LoopSpec, b2i, exc
 from .buffers import blen, bbyte
-from vf.cexec import Exec
+from vf.cexec import Exec, QuantifierFree
 from vf.cfront import line_of
 
 R = R0.fork()
@@ -323,6 +323,7 @@ def lookup_post(c, st0, st1, x, kv, r):
 class get_unique_type(Contract):
     name = 'get_unique_type'
     record_calls = True
+    record_words = {'unique_key': 2}
 
     def kv(self, c):
         uk = c['unique_key']
@@ -409,8 +410,9 @@ def _mk_newtype(nm, words):
                  z3.Implies(r != 0, z3.And(
                      st1.gvar('tmp:calls:get_unique_type', B64) == st0.gvar('tmp:calls:get_unique_type', B64) + 1,
                      z3.Extract(31, 0, st1.gvar('tmp:arg:get_unique_type:keylength', B64)) == n // 8,
-                     c.raw(st1, st1.gvar('tmp:arg:get_unique_type:unique_key', B64), 8) == w0,
-                     *([c.raw(st1, st1.gvar('tmp:arg:get_unique_type:unique_key', B64) + 8, 8) == w1] if n == 16 else []))))]
+                     st1.gvar('tmp:arg:get_unique_type:unique_key[0]', B64) == w0,
+                     *([st1.gvar('tmp:arg:get_unique_type:unique_key[1]', B64) == w1] if n == 16 else []))),
+                 QuantifierFree())]
     K.__name__ = nm
     R.add(K)
     C27_FUNCS.append(nm)
